@@ -1,6 +1,6 @@
 (* Model/Dispatch.v — one entry point for the harness: op code + encoded argument -> encoded
    result.  Op codes are listed in harness/ops.py.  Glue, no proofs. *)
-From VK Require Import Base Core STV Pairwise Rules PV Election BallotCtor Cleaning Metrics Loaders Codec.
+From VK Require Import Base Core STV Pairwise Rules PV Election BallotCtor Cleaning Metrics Loaders GenValidation Codec.
 
 Definition op_remove_cand (v : val) : val :=
   match v with
@@ -285,6 +285,20 @@ Definition op_node_weights (v : val) : val :=
   | _ => VE EScript
   end.
 
+Definition op_bloc_checks (v : val) : val :=
+  match v with
+  | VL [props; ik; coh] =>
+      eRes (fun _ => VN) (let! p := dList (dPair dPos dQ) props in let! k := dList dPos ik in
+                          let! c := dList (dPair dPos (dList (dPair dPos dQ))) coh in bloc_checks p k c)
+  | _ => VE EScript
+  end.
+Definition op_combine_checks (v : val) : val :=
+  match v with
+  | VL [ics; props] =>
+      eRes (fun _ => VN) (let! i := dList (dList dPos) ics in let! p := dList dQ props in combine_checks i p)
+  | _ => VE EScript
+  end.
+
 Definition dispatch (op : Z) (v : val) : val :=
   match op with
   | 1 => op_remove_cand v
@@ -307,6 +321,8 @@ Definition dispatch (op : Z) (v : val) : val :=
   | 41 => op_history v
   | 50 => op_make_ballot v
   | 60 => op_remove_empty v
+  | 65 => op_bloc_checks v
+  | 66 => op_combine_checks v
   | 70 => op_load_csv v
   | 71 => op_load_scottish v
   | 72 => op_to_csv v
